@@ -1,9 +1,10 @@
 #!/bin/bash
-# usage: confirm_batch.sh <PROP> ...   -- confirms /tmp/seedout/<PROP>/m{1,2,3} as seeds <PROP>-s<k> (sequentially)
+# usage: [SEEDDIR=/tmp/seedout] [TAG=s] confirm_batch.sh <PROP> ...   -- confirms $SEEDDIR/<PROP>/m{1..4} as seeds <PROP>-<TAG><k> (sequentially)
+SEEDDIR=${SEEDDIR:-/tmp/seedout}; TAG=${TAG:-s}
 for p in "$@"; do
-  for m in 1 2 3; do
-    d=/tmp/seedout/$p/m$m
+  for m in 1 2 3 4; do
+    d=$SEEDDIR/$p/m$m
     [ -f $d/patch.diff ] || continue
-    /verif/tools/confirm_seed.sh $d $p-s$m 2>&1 | grep -v "^WARNING" | tail -4
+    /verif/tools/confirm_seed.sh $d $p-$TAG$m 2>&1 | grep -v "^WARNING" | tail -4
   done
 done
